@@ -24,7 +24,16 @@ type typeOps struct {
 const bufPad = 3
 
 // codecCore: C01 C02 C04 C16 (+ hooks for C06/C14 via own()).
+// boundParams: per-job shape bounds override the generated defaults.
+func boundParams() {
+	boundS = vrt.ParamOr("S", boundS)
+	boundL = vrt.ParamOr("L", boundL)
+	boundM = vrt.ParamOr("M", boundM)
+	boundD = vrt.ParamOr("D", boundD)
+}
+
 func codecCore(ops *typeOps) {
+	boundParams()
 	vrt.SetOwner("user")
 	pv := ops.NewZero()
 	ops.Fill(pv, "v")
@@ -289,6 +298,7 @@ func withBounds(sb, lb, mb int, f func()) {
 // decmsgCore: a well-formed message written under schema W (any field order, trailing bytes) is
 // decoded into a (possibly pre-filled) destination of type T: C03 C09 C10 C11 C14 C06.
 func decmsgCore(w, t *typeOps) {
+	boundParams()
 	vrt.SetOwner("user")
 	pm := w.NewZero()
 	w.Fill(pm, "m")
@@ -349,4 +359,43 @@ func decmsgCore(w, t *typeOps) {
 func reflectDataPtr(p interface{}) unsafe.Pointer {
 	type eface struct{ t, d unsafe.Pointer }
 	return (*eface)(unsafe.Pointer(&p)).d
+}
+
+// hopCore (C11): a message of the newer schema W passes through an intermediary that only knows T
+// (with unknown-field holders): decode into T, re-encode, and a W reader must get the original value back.
+func hopCore(w, t *typeOps) {
+	boundParams()
+	vrt.SetOwner("user")
+	pm := w.NewZero()
+	w.Fill(pm, "m")
+	rv := w.ToRef(pm)
+	msg := refEncodeStruct(w.St, rv, nil)
+	vrt.SetOwner("buf")
+	buf := append([]byte{}, msg...)
+	vrt.SetOwner("user")
+	pt := t.New()
+	vrt.SetOwner("dec")
+	vrt.Phase("decode")
+	n, err := DecodeObject(buf, pt)
+	vrt.Check(err == nil && n == len(msg), "C11 intermediary decodes the newer message")
+	// the holder keeps bytes of the input; overwrite the input to show the holder owns a copy
+	for i := range buf {
+		buf[i] = 0xEE
+	}
+	vrt.Phase("encode")
+	vrt.SetOwner("impl")
+	sz := EncodedSize(pt)
+	out := make([]byte, sz)
+	k, err2 := EncodeObject(out, nil, pt)
+	vrt.Phase("")
+	vrt.Check(err2 == nil && k == sz, "C11 EncodedSize counts the retained unknown bytes")
+	var d refDec
+	rn, back, rok := refDecodeStruct(w.St, out, newStructDst(w.St), &d, 1<<20)
+	vrt.Check(rok && rn == sz, "C11 re-encoded message is well-formed under the newer schema")
+	if rok {
+		want := refRoundTripStruct(w.St, rv, newStructDst(w.St))
+		vrt.Check(refEqualStruct(w.St, want, back), "C11 nothing is lost through decode and re-encode by an older schema")
+	}
+	vrt.Observe("out", out)
+	vrt.Reach("end")
 }
